@@ -107,16 +107,13 @@ ReadLaws ==
               /\ R("contains", Upper(k)) = R("contains", k)
               /\ R("contains", k).v => Lower(R("iter", <<>>).v[R("find", k).v + 1]) = Lower(k)
 
-\* immutable variants: TypeError from every mutator
-ImmutableInv == Kind = "ImmutableMultiDict" /\ act.name \in MdMutators => RetEq(act.ret, TypeErr)
-
 \* documented post-conditions of the mutators, stated through reads of pre / post state
 GL(st, k) == Read(Kind, st, "getlist", [A0 EXCEPT !.k = k]).v
 Same(k1, k2) == IF Kind = "Headers" THEN Lower(k1) = Lower(k2) ELSE k1 = k2
 OthersKept(k) == \A k2 \in Keys : ~Same(k, k2) => GL(obj', k2) = GL(obj, k2)
 Post ==
   LET a == act'.a  n == act'.name  ok == act'.ret.tag # "exc" IN
-  CASE Kind = "ImmutableMultiDict" -> obj' = obj
+  CASE Kind = "ImmutableMultiDict" -> obj' = obj /\ (n \in MdMutators => RetEq(act'.ret, TypeErr))
     [] Kind \in {"MultiDict", "Headers"} ->
          /\ n \in {"setitem", "set"} => GL(obj', a.k) = <<a.v>> /\ OthersKept(a.k)
          /\ n = "add" => GL(obj', a.k) = GL(obj, a.k) \o <<a.v>> /\ OthersKept(a.k)
